@@ -239,6 +239,11 @@ func c09SchedHistory(r *VRand, st *VStream, stat *VStats) (ok bool, where string
 		}
 		after := func(tt int, op string) {
 			at := h.next(tt)
+			for !strings.HasPrefix(at, "ret:") && c09YieldPc[at] == "" {
+				// a yield point this harness does not know (added later to /repo): transparent
+				h.release(tt)
+				at = h.next(tt)
+			}
 			pc := pcName(at)
 			switch {
 			case strings.HasPrefix(at, "ret:"):
